@@ -344,6 +344,10 @@ Definition failed_state_message (st : state) : text * list out :=
 (* ---------------------------------------------------------------------------------------- *)
 (* start of the agent process (initial start and every restart)                             *)
 (* ---------------------------------------------------------------------------------------- *)
+(* acl::acl_directory on the key directory: chown root:root (recorded only when it succeeds), chmod 0o700 *)
+Definition acl_sys (co : bool) : list sys :=
+  (if co then [Chown Consts.c12_acl_uid Consts.c12_acl_gid] else []) ++ [Chmod Consts.c12_acl_mode].
+
 (* [co] ("chown ok"): the environment lets chown(key dir, root, root) succeed.  When it does not (agent
    without CAP_CHOWN on a directory somebody else owns) acl_directory logs the failure and STILL sets the
    mode: the directory is then as restricted as the agent can make it. *)
@@ -363,8 +367,7 @@ Definition boot (fs : list (keyid * bool)) (dir : bool) (co : bool) : state * li
             ++ log_trace [Lit "acl_directory: successfully set root-only permission to folder "; Public "key dir"; Lit "."]
             ++ log_trace [Lit "Folder "; Public "key dir"; Lit " ACLed if has not before."] in
   (st1, o_listener ++ o1 ++ o_dir,
-   (if dir then [] else [Mkdir]) ++ (if co then [Chown Consts.c12_acl_uid Consts.c12_acl_gid] else [])
-   ++ [Chmod Consts.c12_acl_mode]).
+   (if dir then [] else [Mkdir]) ++ acl_sys co).
 
 (* ---------------------------------------------------------------------------------------- *)
 (* one iteration of loop_poll                                                               *)
@@ -384,7 +387,7 @@ Definition update_rules (st : state) (r : N) : state * list out :=
 
 (* result of the key fetch/acquire/attest block: the new state, what it wrote, and whether the
    iteration goes on to the channel-state update ([false] = `continue`) *)
-Definition acquire_block (v : variant) (st : state) (kr : key_resp) (ar : attest_resp)
+Definition acquire_block (v : variant) (co : bool) (st : state) (kr : key_resp) (ar : attest_resp)
   : state * list out * list sys * bool :=
   let post := [(HostRequest, [Lit "POST /secure-channel/key"; Public "headers"; Public "body"])] in
   match kr with
@@ -397,28 +400,30 @@ Definition acquire_block (v : variant) (st : state) (kr : key_resp) (ar : attest
       if negb hex && fix_hex v then
         let '(st1, o) := set_status st msg_acquire_nonhex_fixed true in (st1, post ++ o, [], false)
       else
-      if negb (dir_exists st) then
-        (* store_key -> json_write_to_file: File::create fails, the key folder is gone; nothing is created *)
-        let '(st1, o) := set_status st msg_store_failed true in
-        (st1, post ++ o, [], false)
-      else
+      (* commit fd6287b: right before the key is stored the key folder is (re-)created if it is gone
+         (try_create_folder) and restricted again (acl_directory) -- it may have been removed, or re-created
+         with default permissions by write_provision_state, since start-up *)
+      let sy_store := (if dir_exists st then [] else [Mkdir]) ++ acl_sys co ++ [Create FKeyFile] in
+      let o_acl := log_trace [Lit "acl_directory: start to set root-only permission to folder "; Public "key dir"; Lit "."]
+                ++ log_trace [Lit "acl_directory: "; Public "chown result"; Lit " set root-only permission to folder "; Public "key dir"]
+                ++ log_trace [Lit "acl_directory: successfully set root-only permission to folder "; Public "key dir"; Lit "."] in
       (* store_key: <guid>.tmp created, renamed to <guid>.key; check_key reads it back *)
-      let st1 := set_files st (store_file k hex (files st)) in
-      let o_store := [(KeyFile, key_document k)]
+      let st1 := set_dir (set_files st (store_file k hex (files st))) true in
+      let o_store := o_acl ++ [(KeyFile, key_document k)]
                   ++ log_console [Lit "Successfully acquired the key '"; Public "guid"; Lit "' details from server and saved locally."] in
       if negb hex then
         (* attest_key -> build_request -> compute_signature fails: Error::Hex(key, ..) *)
-        (st1, post ++ o_store ++ log_console (msg_attest_hex k), [Create FKeyFile], false)
+        (st1, post ++ o_store ++ log_console (msg_attest_hex k), sy_store, false)
       else
         let o_req := [(HostRequest, [Lit "POST /secure-channel/key/"; Public "guid"; Lit "/key-attestation";
                                      Public "headers"; Lit "x-ms-azure-host-authorization: "] ++ authorization_value k)] in
         match ar with
-        | AErr => (st1, post ++ o_store ++ o_req ++ log_console msg_attest_status, [Create FKeyFile], false)
+        | AErr => (st1, post ++ o_store ++ o_req ++ log_console msg_attest_status, sy_store, false)
         | AOk =>
             let st2 := set_mem st1 (Some (k, hex)) in
             let '(m, oe) := startup_event "Successfully attest the key and ready to use." in
             let '(st3, os) := set_status st2 m false in
-            (key_latched st3, post ++ o_store ++ o_req ++ oe ++ os, [Create FKeyFile], true)
+            (key_latched st3, post ++ o_store ++ o_req ++ oe ++ os, sy_store, true)
         end
   end.
 
@@ -429,7 +434,7 @@ Definition guid_differs (g : option keyid) (m : option (keyid * bool)) : bool :=
   | Some g, Some (k, _) => negb (N.eqb g k)
   end.
 
-Definition key_block (v : variant) (st : state) (guid : option keyid) (kr : key_resp) (ar : attest_resp)
+Definition key_block (v : variant) (co : bool) (st : state) (guid : option keyid) (kr : key_resp) (ar : attest_resp)
   : state * list out * list sys * bool :=
   match guid with
   | Some g =>
@@ -443,9 +448,9 @@ Definition key_block (v : variant) (st : state) (guid : option keyid) (kr : key_
       | None =>
           let o := event true [Lit "Failed to fetch local key details with error: "; Public "FetchLocalKey error";
                                Lit ". Will try acquire the key details from Server."] in
-          let '(st1, o1, s1, go) := acquire_block v st kr ar in (st1, o ++ o1, s1, go)
+          let '(st1, o1, s1, go) := acquire_block v co st kr ar in (st1, o ++ o1, s1, go)
       end
-  | None => acquire_block v st kr ar
+  | None => acquire_block v co st kr ar
   end.
 
 (* update_current_secure_channel_state + the disabled branch *)
@@ -477,7 +482,7 @@ Definition wake (st : state) : state * list out :=
     end
   else (st, []).
 
-Definition poll (v : variant) (st : state) (s : status_resp) (kr : key_resp) (ar : attest_resp)
+Definition poll (v : variant) (co : bool) (st : state) (s : status_resp) (kr : key_resp) (ar : attest_resp)
   : state * list out * list sys :=
   let get := [(HostRequest, [Lit "GET /secure-channel/status"; Public "headers"])] in
   let '(st', o, sy) :=
@@ -490,7 +495,7 @@ Definition poll (v : variant) (st : state) (s : status_resp) (kr : key_resp) (ar
         let '(st2, o2) := update_rules st1 r in
         let c := if enabled then ChEnabled else ChDisabled in
         let '(st3, o3, s3, go) :=
-          if enabled && guid_differs guid (mem st2) then key_block v st2 guid kr ar
+          if enabled && guid_differs guid (mem st2) then key_block v co st2 guid kr ar
           else (st2, [], [], true) in
         if go then let '(st4, o4) := update_chan st3 c in (st4, o1 ++ o2 ++ o3 ++ o4, s3)
         else (st3, o1 ++ o2 ++ o3, s3)
@@ -534,7 +539,8 @@ Definition provision_query (st : state) (notify : bool) : state * list out :=
 
 (* provision.rs provision_timeup -> write_provision_state (ALL_READY is never reached).
    write_provision_state starts with try_create_folder(provision_dir = the key folder): when the folder is gone
-   it is RE-CREATED with default permissions and nothing restricts it until the next start (F12). *)
+   it is RE-CREATED with default permissions (F12: before commit fd6287b nothing restricted it until the next
+   start; now the next key store does). *)
 Definition provision_timeup (st : state) : state * list out * list sys :=
   let '(m, o) := failed_state_message st in
   (set_dir st true,
@@ -554,7 +560,7 @@ Definition status_tick (st : state) : list out :=
 
 Definition step (v : variant) (co : bool) (st : state) (o : op) : state * list out * list sys :=
   match o with
-  | Poll s k a => poll v st s k a
+  | Poll s k a => poll v co st s k a
   | Restart => boot (files st) (dir_exists st) co
   | ClientRequest => (st, client_request st, [])
   | ProvisionQuery n => let '(st1, o) := provision_query st n in (st1, o, [])
@@ -654,17 +660,6 @@ Fixpoint creates_restricted (co : bool) (d : dirstate) (tr : list sys) : bool :=
   | e :: tr' => creates_restricted co (sys_step d e) tr'
   end.
 
-(* known-finding class F12: the key directory is removed and, before the agent is started again, the provision
-   deadline re-creates it unrestricted ([removed]: the directory is currently gone) *)
-Fixpoint recreated_unrestricted (removed : bool) (h : history) : bool :=
-  match h with
-  | [] => false
-  | RemoveKeyDir :: h' => recreated_unrestricted true h'
-  | Restart :: h' => recreated_unrestricted false h'
-  | ProvisionTimeup :: h' => removed || recreated_unrestricted removed h'
-  | _ :: h' => recreated_unrestricted removed h'
-  end.
-Definition KnownClass_keydir_recreated_unrestricted (h : history) : bool := recreated_unrestricted false h.
 Definition init_dir (predir : bool) : dirstate := if predir then Some (false, 493%N) else None.
 Definition dir_after (predir : bool) (tr : list sys) : dirstate := fold_left sys_step tr (init_dir predir).
 
